@@ -243,6 +243,15 @@ func (l *link) Watch(key string, opts ...interface{}) (leader.Watcher, error) {
 		in.watchCalls++
 		s.mu.Unlock()
 		if n < in.spec.WatchFail && !s.tearing.Load() {
+			// transient by construction (it ceases after WatchFail calls), whatever the error looks like
+			switch in.spec.WatchFailErr {
+			case "auth":
+				return errors.New("nats: authentication expired")
+			case "invalid":
+				return errors.New("nats: invalid subscription")
+			case "bucket":
+				return nats.ErrBucketNotFound
+			}
 			return nats.ErrTimeout
 		}
 		w := s.store.Watch(key)
